@@ -143,8 +143,11 @@ def is_separable(state: np.ndarray, dim: None | int | list[int] = None, level: i
         return False
 
     # Another test that is strictly stronger than the realignment criterion.
-    if trace_norm(realignment(state - np.kron(pt_state_alice, pt_state_bob), dim)) > np.sqrt(
-        1 - np.trace(pt_state_alice**2 @ pt_state_bob**2)
+    if trace_norm(realignment(state - np.kron(pt_state_alice, pt_state_bob), dim)) > tol + np.sqrt(
+        max(
+            0.0,
+            np.real((1 - np.trace(pt_state_alice @ pt_state_alice)) * (1 - np.trace(pt_state_bob @ pt_state_bob))),
+        )
     ):
         # Determined to be entangled by using Theorem 1 of (Zhang_2008_Beyond_realignment).
         return False
